@@ -1,12 +1,14 @@
 //! Program generator for C20: one `rec_lambda!` invocation and one hand-written recursive `fn` per shape,
 //! both with the SAME body text (only the spelling of the recursive call differs: `f!(e1, e2)` /
 //! `f!(e1, e2,)` in the macro version, `hand(e1, e2, <captures in written order>)` in the hand version),
-//! and a driver per shape that calls both in the same way.  The shapes of a run are spread over several
+//! and a driver per shape that calls both in the same way.  Families: body templates A-D (fixed argument
+//! types), T (argument TYPE classes), E (argument EXPRESSION classes whose type only the parameter fixes),
+//! N (identifier collisions: which names the recursion, the arguments, the locals and the closure carry).  The shapes of a run are spread over several
 //! library crates (compiled at the same time) that one binary links and runs.
 
 use serde::{Deserialize, Serialize};
 
-#[derive(Clone, Debug, PartialEq, Eq, Serialize, Deserialize)]
+#[derive(Clone, Debug, Default, PartialEq, Eq, Serialize, Deserialize)]
 pub struct Shape {
     /// captures in the order written in the invocation; true = `&mut`, false = `&`
     pub caps: Vec<bool>,
@@ -22,7 +24,11 @@ pub struct Shape {
     /// (also as a statement of a block argument when there is no return value), arguments that are blocks
     /// mutating every mutable capture before yielding their value, and an argument computed from a value
     /// popped off a mutable Vec capture;
-    /// 'T' typed arguments: two recursive calls after an early return, over arguments of the classes in `types`
+    /// 'T' typed arguments: two recursive calls after an early return, over arguments of the classes in `types`;
+    /// 'E' arguments whose type only the PARAMETER fixes (classes in `exprs`): the recursive calls pass
+    /// literal-only integer / float expressions and expressions that need the expected type to infer;
+    /// 'N' identifier collisions (scheme in `naming`): two recursive calls in a loop and one after it, with a
+    /// local, a loop variable and calls of `max`, `drop`, `Some` by their plain names in scope
     pub body: char,
     /// body template 'T' only: the type class of every argument, one letter per argument —
     /// I `i64`, B `bool`, S `&[i64]` (shared slice), M `&mut Vec<i64>` (a mutable reference passed as an
@@ -30,6 +36,38 @@ pub struct Shape {
     /// position, `String` at the 2nd/4th).  Empty for the other templates (fixed types i64, i64, u32, bool).
     #[serde(default, skip_serializing_if = "String::is_empty")]
     pub types: String,
+    /// body template 'E' only: the expression class (see `eclasses`) of every argument, by name.
+    #[serde(default, skip_serializing_if = "Vec::is_empty")]
+    pub exprs: Vec<String>,
+    /// body template 'N' only: which identifiers coincide (see `Shape::names`).  Empty = the default names
+    /// (recursion name `f`, arguments a1.., captures s<p> / m<p>, local `acc`, loop variable `i`, the closure is
+    /// bound to `lam`).
+    #[serde(default, skip_serializing_if = "String::is_empty")]
+    pub naming: String,
+}
+
+/// The identifier of the helper fn that the macro defines next to the user's body (read off
+/// /repo/rlib/lambda/src/lib.rs; the engine records whether the source still contains it).
+pub const HIDDEN: &str = "_lambda_name_";
+/// Names of the macro's own metavariables, used as user identifiers by the naming scheme `meta`.
+const META_REC: &str = "name";
+const META_ARGS: [&str; 4] = ["x", "xf", "arg", "ret"];
+const META_CAPS: [&str; 4] = ["dol", "body", "var", "rem"];
+const META_LOCAL: &str = "var_type";
+const META_LOOPVAR: &str = "arg_type";
+/// Names of the standard library that the recursion may be named after: `max` (imported with `use
+/// std::cmp::max` and CALLED in the body), `drop` and `Some` (prelude, used in the body), `vec` and `format`
+/// (macros; the body does not invoke them).
+pub const STD_NAMES: [&str; 5] = ["max", "drop", "Some", "vec", "format"];
+
+/// The identifiers of a shape (captures: `Shape::cap_name`).
+pub struct Names {
+    pub rec: String,
+    pub args: Vec<String>,
+    pub local: String,
+    pub loopvar: String,
+    /// the variable the closure is bound to in the driver
+    pub binding: String,
 }
 
 pub const ARG_TYPES: [&str; 4] = ["i64", "i64", "u32", "bool"];
@@ -45,11 +83,20 @@ impl Shape {
         } else {
             self.caps.iter().map(|&m| if m { "&mut" } else { "&" }).collect::<Vec<_>>().join(",")
         };
+        let extra = if !self.types.is_empty() {
+            format!("/types={}", self.types)
+        } else if !self.exprs.is_empty() {
+            format!("/exprs={}", self.exprs.join(","))
+        } else if !self.naming.is_empty() {
+            format!("/names={}", self.naming)
+        } else {
+            String::new()
+        };
         format!(
             "caps={}/args={}{}/ret={}/call={}/body={}",
             caps,
             self.nargs,
-            if self.types.is_empty() { String::new() } else { format!("/types={}", self.types) },
+            extra,
             if self.ret { "i64" } else { "none" },
             if self.trailing { "trailing_comma" } else { "plain" },
             self.body
@@ -69,11 +116,14 @@ impl Shape {
             None => ['I', 'I', 'I', 'B'][k],
         }
     }
-    pub fn arg_type(&self, k: usize) -> &'static str {
-        if self.types.is_empty() {
-            return ARG_TYPES[k];
+    pub fn arg_type(&self, k: usize) -> String {
+        if self.body == 'E' {
+            return eclass(&self.exprs[k]).ty;
         }
-        match self.class(k) {
+        if self.types.is_empty() {
+            return ARG_TYPES[k].to_string();
+        }
+        let t: &str = match self.class(k) {
             'I' => "i64",
             'B' => "bool",
             'S' => "&[i64]",
@@ -81,7 +131,73 @@ impl Shape {
             'O' if k % 2 == 0 => "Vec<i64>",
             'O' => "String",
             c => panic!("unknown argument class {c}"),
+        };
+        t.to_string()
+    }
+    /// Which grid of driver tuples the shape is run on: its argument count, or 0 = the grid of template E
+    /// (only the first component of a tuple enters the values the driver passes).
+    pub fn grid_arity(&self) -> usize {
+        if self.body == 'E' {
+            0
+        } else {
+            self.nargs
         }
+    }
+    /// The identifiers the naming scheme gives to the recursion, the arguments, the body's local and loop
+    /// variable and the variable the closure is bound to.  Schemes: `rec:arg<k>` / `rec:cap<p>` / `rec:local` /
+    /// `rec:loopvar` / `rec:binding` the recursion is named like that argument / capture / local / loop variable /
+    /// like the variable the closure is bound to; `rec:std.<name>` like a name of the standard library;
+    /// `rec:hidden`, `arg<k>:hidden`, `local:hidden`, `loopvar:hidden`, `binding:hidden` that identifier is
+    /// the macro's hidden helper name; `meta` every identifier is the name of one of the macro's metavariables.
+    pub fn names(&self) -> Names {
+        let mut n = Names {
+            rec: "f".into(),
+            args: (1..=self.nargs).map(|k| format!("a{k}")).collect(),
+            local: "acc".into(),
+            loopvar: "i".into(),
+            binding: "lam".into(),
+        };
+        let scheme = self.naming.as_str();
+        if scheme.is_empty() {
+            return n;
+        }
+        if scheme == "meta" {
+            n.rec = META_REC.into();
+            n.args = META_ARGS[..self.nargs].iter().map(|s| s.to_string()).collect();
+            n.local = META_LOCAL.into();
+            n.loopvar = META_LOOPVAR.into();
+            return n;
+        }
+        let (who, what) = scheme.split_once(':').unwrap_or_else(|| panic!("bad naming scheme {scheme}"));
+        let index = |s: &str, prefix: &str| s.strip_prefix(prefix).and_then(|d| d.parse::<usize>().ok());
+        let name: String = if what == "hidden" {
+            HIDDEN.into()
+        } else if let Some(std) = what.strip_prefix("std.") {
+            std.into()
+        } else if let Some(k) = index(what, "arg") {
+            n.args[k - 1].clone()
+        } else if let Some(p) = index(what, "cap") {
+            self.cap_name(p)
+        } else {
+            match what {
+                "local" => n.local.clone(),
+                "loopvar" => n.loopvar.clone(),
+                "binding" => n.binding.clone(),
+                _ => panic!("bad naming scheme {scheme}"),
+            }
+        };
+        if let Some(k) = index(who, "arg") {
+            n.args[k - 1] = name;
+        } else {
+            match who {
+                "rec" => n.rec = name,
+                "local" => n.local = name,
+                "loopvar" => n.loopvar = name,
+                "binding" => n.binding = name,
+                _ => panic!("bad naming scheme {scheme}"),
+            }
+        }
+        n
     }
     fn owned_string(&self, k: usize) -> bool {
         self.class(k) == 'O' && k % 2 == 1
@@ -98,7 +214,10 @@ impl Shape {
     pub fn capture_class(&self) -> usize {
         (self.caps.contains(&false) as usize) | (self.caps.contains(&true) as usize) << 1
     }
-    fn cap_name(&self, p: usize) -> String {
+    pub fn cap_name(&self, p: usize) -> String {
+        if self.naming == "meta" {
+            return META_CAPS[p].to_string();
+        }
         format!("{}{}", if self.caps[p] { "m" } else { "s" }, p)
     }
     /// Type of the capture at written position p (without the reference).  Shared captures alternate
@@ -143,7 +262,7 @@ pub fn enumerate(plan: &[(char, Vec<usize>)]) -> Vec<Shape> {
                 for &nargs in arities {
                     for ret in [false, true] {
                         for trailing in [false, true] {
-                            v.push(Shape { caps: caps.clone(), nargs, ret, trailing, body, types: String::new() });
+                            v.push(Shape { caps: caps.clone(), nargs, ret, trailing, body, ..Shape::default() });
                         }
                     }
                 }
@@ -202,7 +321,7 @@ pub fn enumerate_typed(thorough: bool) -> Vec<Shape> {
         for nargs in 1..=4usize {
             let mut push = |types: &String, combo: usize| {
                 let (ret, trailing) = COMBOS[combo % 4];
-                v.push(Shape { caps: caps.clone(), nargs, ret, trailing, body: 'T', types: types.clone() });
+                v.push(Shape { caps: caps.clone(), nargs, ret, trailing, body: 'T', types: types.clone(), ..Shape::default() });
             };
             for (r, types) in rotation_types(nargs).iter().enumerate() {
                 if thorough {
@@ -222,7 +341,285 @@ pub fn enumerate_typed(thorough: bool) -> Vec<Shape> {
     v
 }
 
+/// A class of argument expressions whose type is fixed by nothing but the parameter they are passed to
+/// (body template 'E').
+#[derive(Clone, Debug)]
+pub struct EClass {
+    pub name: String,
+    /// the parameter's type
+    pub ty: String,
+    /// a value for the driver's call, from the i64 expression `{v}` (0..=20)
+    pub top: String,
+    /// an i64 computed from the argument `{a}`
+    pub digest: String,
+    /// the argument at the three plain recursive-call sites
+    pub sites: [String; 3],
+    /// the argument at the two sites inside `for k in [..u32 values..]`; `{k}` = the loop variable
+    pub loop_sites: [String; 2],
+    /// every one of the five is built from unsuffixed literals only (plus the u32 loop variable as a shift count)
+    pub literal_only: bool,
+}
+
+/// Shift counts of the loop sites (reduced modulo the parameter's width in the expressions).
+pub const E_SHIFTS: [u32; 11] = [0, 1, 7, 8, 15, 16, 31, 32, 63, 64, 127];
+/// A literal-only expression worth 2^32: either literal exceeds i32, their sum exceeds u32.
+const TWO_32: &str = "0x8000_0000 + 0x8000_0000";
+/// Decimal literal just above the midpoint of two neighbouring f32 values, by less than half an f64 ulp:
+/// rounding it to f32 directly gives the upper neighbour, rounding to f64 first gives the midpoint itself
+/// and then (ties to even) the lower one.
+const F32_DOUBLE_ROUNDING: &str = "1.000000298023223876953125000001";
+
+fn build_eclasses() -> Vec<EClass> {
+    let s = |x: &str| x.to_string();
+    let mut v = vec![];
+    let ints: [(&str, u32, bool); 12] = [
+        ("u8", 8, false),
+        ("u16", 16, false),
+        ("u32", 32, false),
+        ("u64", 64, false),
+        ("usize", usize::BITS, false),
+        ("u128", 128, false),
+        ("i8", 8, true),
+        ("i16", 16, true),
+        ("i32", 32, true),
+        ("i64", 64, true),
+        ("isize", isize::BITS, true),
+        ("i128", 128, true),
+    ];
+    for (t, b, signed) in ints {
+        let value_bits = if signed { b - 1 } else { b };
+        let max: u128 = if value_bits == 128 { u128::MAX } else { (1u128 << value_bits) - 1 };
+        let digest = if b == 128 { s("({a} as i64) ^ (({a} >> 64) as i64).wrapping_mul(31)") } else { s("{a} as i64") };
+        // 1: the largest value, 2: all ones shifted right (unsigned) / the smallest value (signed),
+        // 3: 2^32 where it fits, else a value with the top bit of the type in play
+        let second = if signed { format!("-{max} - 1") } else { s("!0 >> 1") };
+        let third = if b >= 64 {
+            s(TWO_32)
+        } else if signed {
+            s("!0 >> 1")
+        } else if b == 32 {
+            s("0x8000_0000")
+        } else {
+            format!("{max} / 2 + 1")
+        };
+        v.push(EClass {
+            name: s(t),
+            ty: s(t),
+            top: format!("{{v}} as {t}"),
+            digest,
+            sites: [max.to_string(), second, third],
+            loop_sites: [format!("1 << ({{k}} % {b})"), format!("!0 >> ({{k}} % {b})")],
+            literal_only: true,
+        });
+    }
+    let mut add = |name: &str, ty: &str, top: &str, digest: &str, sites: [&str; 3], loop_sites: [&str; 2], literal_only: bool| {
+        v.push(EClass {
+            name: s(name),
+            ty: s(ty),
+            top: s(top),
+            digest: s(digest),
+            sites: sites.map(s),
+            loop_sites: loop_sites.map(s),
+            literal_only,
+        })
+    };
+    let vec_digest = "{a}.iter().fold({a}.len() as i64, |h, v| h.wrapping_mul(31).wrapping_add(*v as i64))";
+    add("f32", "f32", "{v} as f32 + 0.25", "{a}.to_bits() as i64", [F32_DOUBLE_ROUNDING, "16777216.0 + 1.0 + 1.0", "0.1 + 0.2"], ["1.0 / 3.0", "3.4028235e38"], true);
+    add("f64", "f64", "{v} as f64 + 0.25", "{a}.to_bits() as i64", ["0.1", "1.7976931348623157e308", "5e-324 + 1e-320"], ["1.0 / 3.0", "1e16 + 1.0"], true);
+    add(
+        "tuple",
+        "(u64, f32)",
+        "({v} as u64, 0.5)",
+        "({a}.0 as i64) ^ ({a}.1.to_bits() as i64)",
+        ["(18446744073709551615, 0.1)", "(0x8000_0000 + 0x8000_0000, 16777216.0 + 1.0 + 1.0)", "(!0 >> 1, 1.000000298023223876953125000001)"],
+        ["(1 << ({k} % 64), 0.5)", "(!0 >> ({k} % 64), 1.0 / 3.0)"],
+        true,
+    );
+    add(
+        "option",
+        "Option<u64>",
+        "Some({v} as u64)",
+        "{a}.map_or(-1, |v| v as i64)",
+        ["None", "Some(0x8000_0000 + 0x8000_0000)", "Some(!0 >> 1)"],
+        ["Some(1 << ({k} % 64))", "None"],
+        true,
+    );
+    add(
+        "slice",
+        "&[u64]",
+        "&[{v} as u64, 1]",
+        vec_digest,
+        ["&[]", "&[0x8000_0000 + 0x8000_0000, 2]", "&[18446744073709551615]"],
+        ["&[1 << ({k} % 64), 3]", "&[!0 >> ({k} % 64)]"],
+        true,
+    );
+    add(
+        "vecnew",
+        "Vec<u64>",
+        "vec![{v} as u64; 2]",
+        vec_digest,
+        ["Vec::new()", "vec![]", "vec![0x8000_0000 + 0x8000_0000, 5]"],
+        ["vec![1 << ({k} % 64); 2]", "Vec::with_capacity(4)"],
+        false,
+    );
+    add(
+        "default",
+        "(u16, bool)",
+        "({v} as u16, true)",
+        "({a}.0 as i64) * 2 + {a}.1 as i64",
+        ["Default::default()", "(Default::default(), true)", "(65535, Default::default())"],
+        ["({k} as u16, Default::default())", "Default::default()"],
+        false,
+    );
+    add("into", "u64", "{v} as u64", "{a} as i64", ["7u8.into()", "300u16.into()", "true.into()"], ["{k}.into()", "'x'.into()"], false);
+    add(
+        "parse",
+        "u16",
+        "{v} as u16",
+        "{a} as i64",
+        ["\"65535\".parse().unwrap()", "\"12\".parse().unwrap_or(3)", "\"x\".parse().unwrap_or_default()"],
+        ["{k}.to_string().parse().unwrap()", "\"7\".parse().unwrap()"],
+        false,
+    );
+    add(
+        "collect",
+        "Vec<i64>",
+        "vec![{v}; 2]",
+        vec_digest,
+        ["(0..3).collect()", "[4, 5].iter().map(|x| x * 2).collect()", "std::iter::repeat(0x8000_0000 + 0x8000_0000).take(2).collect()"],
+        ["(0..{k} % 4).map(|x| x.into()).collect()", "Some(9).into_iter().collect()"],
+        false,
+    );
+    add(
+        "fold",
+        "i64",
+        "{v}",
+        "{a}",
+        ["[1, 2, 3].iter().sum()", "(1..5).product()", "[3, 9].into_iter().max().unwrap()"],
+        ["(0..{k}).map(|x| x as i64).sum()", "[0x8000_0000 + 0x8000_0000, 1].into_iter().min().unwrap()"],
+        false,
+    );
+    add(
+        "string",
+        "String",
+        "\"ab\".repeat({v} as usize % 5)",
+        "{a}.bytes().fold({a}.len() as i64, |h, v| h.wrapping_mul(31).wrapping_add(v as i64))",
+        ["\"ab\".into()", "Default::default()", "['a', 'b'].iter().collect()"],
+        ["{k}.to_string().chars().rev().collect()", "String::new()"],
+        false,
+    );
+    add(
+        "closure_fn",
+        "fn(i64) -> i64",
+        "if {v} % 2 == 0 { |x| x + 1 } else { |x| x - 1 }",
+        "{a}(10)",
+        ["|x| x + 1", "|x| x * 2 - 3", "i64::abs"],
+        ["|x| x ^ 5", "|x| -x"],
+        false,
+    );
+    add(
+        "closure_dyn",
+        "&dyn Fn(i64) -> i64",
+        "&|x| x + {v}",
+        "{a}(10)",
+        ["&|x| x + 1", "&|x| x.wrapping_mul(key)", "&move |x| x - (key & 7)"],
+        ["&|x| x + {k} as i64", "&|x| x"],
+        false,
+    );
+    v
+}
+
+pub fn eclasses() -> &'static [EClass] {
+    static ALL: std::sync::OnceLock<Vec<EClass>> = std::sync::OnceLock::new();
+    ALL.get_or_init(build_eclasses)
+}
+pub fn eclass(name: &str) -> EClass {
+    eclasses().iter().find(|c| c.name == name).unwrap_or_else(|| panic!("unknown expression class {name}")).clone()
+}
+
+/// The expected-type family (body template 'E').  For every capture pattern and every argument count, class
+/// vectors by rotation: argument p gets class (p + r) mod (number of classes).  Quick: two rotations per cell
+/// (r = index of the capture pattern, and half the class list further) with complementary (return type, call
+/// syntax) combinations, so that over the capture patterns every class occurs at every argument position of
+/// every argument count; thorough: every rotation, the combination rotating.
+pub fn enumerate_expected(thorough: bool) -> Vec<Shape> {
+    let names: Vec<String> = eclasses().iter().map(|c| c.name.clone()).collect();
+    let nc = names.len();
+    let mut v = vec![];
+    for (q, caps) in capture_patterns().into_iter().enumerate() {
+        for nargs in 1..=4usize {
+            let mut push = |r: usize, combo: usize| {
+                let (ret, trailing) = COMBOS[combo % 4];
+                let exprs = (0..nargs).map(|p| names[(p + r) % nc].clone()).collect();
+                v.push(Shape { caps: caps.clone(), nargs, ret, trailing, body: 'E', exprs, ..Shape::default() });
+            };
+            if thorough {
+                (0..nc).for_each(|r| push(r, q + nargs + r));
+            } else {
+                push(q % nc, q + nargs);
+                push((q + nc / 2) % nc, q + nargs + 3);
+            }
+        }
+    }
+    v
+}
+
+/// Naming schemes of a cell that do not depend on a position.
+pub fn plain_namings() -> Vec<String> {
+    let mut v: Vec<String> = ["rec:local", "rec:loopvar", "rec:binding"].iter().map(|s| s.to_string()).collect();
+    v.extend(STD_NAMES.iter().map(|n| format!("rec:std.{n}")));
+    v.extend(["rec:hidden", "local:hidden", "loopvar:hidden", "binding:hidden", "meta"].iter().map(|s| s.to_string()));
+    v
+}
+
+/// The identifier-collision family (body template 'N').  Per capture pattern (c captures) and argument count n
+/// the schemes are: the recursion named like argument k (n), like capture p (c), an argument carrying the
+/// hidden helper's name (n), and the position-independent ones of `plain_namings`.  Thorough: all of them, the
+/// (return type, call syntax) combination rotating.  Quick: four per cell — one `rec:arg`, one `rec:cap` (or a
+/// second plain one when there is no capture), one `arg:hidden` and one plain scheme, all rotating with the
+/// capture pattern and the argument count, so that over the cells every argument position, every position of
+/// every capture pattern and every plain scheme occurs.
+/// (A CAPTURE carrying the hidden name is not generated: an item declared in a block shadows the enclosing
+/// function's variables inside that block, so `&_lambda_name_` in the macro's outer closure names the helper
+/// fn, not the user's variable — the hidden name is reserved for captures by construction of the macro.)
+pub fn enumerate_named(thorough: bool) -> Vec<Shape> {
+    let plain = plain_namings();
+    let mut v = vec![];
+    for (q, caps) in capture_patterns().into_iter().enumerate() {
+        let c = caps.len();
+        for nargs in 1..=4usize {
+            let mut schemes: Vec<String> = vec![];
+            if thorough {
+                schemes.extend((1..=nargs).map(|k| format!("rec:arg{k}")));
+                schemes.extend((0..c).map(|p| format!("rec:cap{p}")));
+                schemes.extend((1..=nargs).map(|k| format!("arg{k}:hidden")));
+                schemes.extend(plain.iter().cloned());
+            } else {
+                let cell = q * 4 + nargs - 1;
+                schemes.push(format!("rec:arg{}", (q + nargs) % nargs + 1));
+                if c > 0 {
+                    schemes.push(format!("rec:cap{}", (q + nargs) % c));
+                } else {
+                    schemes.push(plain[(cell + plain.len() / 2) % plain.len()].clone());
+                }
+                schemes.push(format!("arg{}:hidden", (q / 2 + nargs) % nargs + 1));
+                schemes.push(plain[cell % plain.len()].clone());
+            }
+            for (j, naming) in schemes.into_iter().enumerate() {
+                let (ret, trailing) = COMBOS[(q + nargs + j) % 4];
+                v.push(Shape { caps: caps.clone(), nargs, ret, trailing, body: 'N', naming, ..Shape::default() });
+            }
+        }
+    }
+    v
+}
+
 pub fn grid(thorough: bool, nargs: usize) -> Vec<Tuple> {
+    if nargs == 0 {
+        // template E: only the first component is used
+        let a1: Vec<i64> = if thorough { vec![0, 1, 2, 3, 5, 6] } else { vec![0, 3, 6] };
+        return a1.into_iter().map(|x| (x, 0, 0, false)).collect();
+    }
     let a1: Vec<i64> = if thorough { (0..=7).collect() } else { vec![0, 1, 2, 3, 4, 6] };
     let a2: Vec<i64> = if thorough { vec![-3, 0, 2] } else { vec![-3, 2] };
     let a3: Vec<u32> = if thorough { vec![0, 9, u32::MAX] } else { vec![0, 9] };
@@ -242,12 +639,18 @@ pub fn grid(thorough: bool, nargs: usize) -> Vec<Tuple> {
 
 pub fn tuple_text(t: &Tuple, nargs: usize) -> String {
     let all = [t.0.to_string(), t.1.to_string(), t.2.to_string(), t.3.to_string()];
-    format!("({})", all[..nargs].join(","))
+    format!("({})", all[..nargs.max(1)].join(","))
 }
 
 /// Argument expressions of the recursive-call sites (truncated to the shape's argument count).  The first
 /// argument strictly decreases at every site, so the recursion is bounded.
 fn site(n: usize, nargs: usize) -> Vec<String> {
+    let args: Vec<String> = (1..=4).map(|k| format!("a{k}")).collect();
+    site_named(n, nargs, &args, "i")
+}
+
+/// The same with the given argument names (a1..a4 replaced; unused ones may be missing) and loop variable.
+fn site_named(n: usize, nargs: usize, args: &[String], loopvar: &str) -> Vec<String> {
     let s: [&str; 4] = match n {
         0 => ["a1 - 1", "a2.wrapping_add(1)", "a3.wrapping_add(1)", "!a4"],
         1 => ["a1 - 2", "a2.wrapping_mul(2)", "a3 ^ 5", "a4"],
@@ -258,19 +661,47 @@ fn site(n: usize, nargs: usize) -> Vec<String> {
         5 => ["a1 - 1 - i", "a2.wrapping_add(i)", "a3.wrapping_add(i as u32)", "a4 ^ (i == 1)"],
         _ => unreachable!(),
     };
-    s[..nargs].iter().map(|x| x.to_string()).collect()
+    // single pass over the text, so that a new name is never renamed again
+    let rename = |text: &str| -> String {
+        let b = text.as_bytes();
+        let ident = |c: u8| c.is_ascii_alphanumeric() || c == b'_';
+        let mut out = String::new();
+        let mut i = 0;
+        while i < b.len() {
+            if ident(b[i]) && (i == 0 || !ident(b[i - 1])) {
+                let j = (i..b.len()).find(|&j| !ident(b[j])).unwrap_or(b.len());
+                let word = &text[i..j];
+                let k = ["a1", "a2", "a3", "a4"].iter().position(|a| *a == word);
+                match k {
+                    Some(k) if k < args.len() => out += &args[k],
+                    _ if word == "i" => out += loopvar,
+                    _ => out += word,
+                }
+                i = j;
+            } else {
+                out.push(b[i] as char);
+                i += 1;
+            }
+        }
+        out
+    };
+    s[..nargs].iter().map(|x| rename(x)).collect()
 }
 
 struct BodyGen<'a> {
     sh: &'a Shape,
     /// Some(name) = hand-written version calling `name(args…, captures…)`; None = macro version `f!(…)`
     hand: Option<&'a str>,
+    names: Names,
 }
 
 impl<'a> BodyGen<'a> {
+    fn new(sh: &'a Shape, hand: Option<&'a str>) -> BodyGen<'a> {
+        BodyGen { sh, hand, names: sh.names() }
+    }
     fn call_with(&self, args: Vec<String>) -> String {
         match self.hand {
-            None => format!("f!({}{})", args.join(", "), if self.sh.trailing { "," } else { "" }),
+            None => format!("{}!({}{})", self.names.rec, args.join(", "), if self.sh.trailing { "," } else { "" }),
             Some(name) => {
                 let mut all = args;
                 for p in 0..self.sh.caps.len() {
@@ -315,9 +746,23 @@ impl<'a> BodyGen<'a> {
     /// key from all arguments, acc from key and every shared capture.
     fn prologue(&self, ind: &str) -> String {
         let mut s = format!("{ind}super::tick();\n");
-        let typed = self.sh.body == 'T';
+        let expected = self.sh.body == 'E';
+        if expected {
+            // how many activations are below this one (0 = called by the driver); `_level` counts down on drop
+            s += &format!("{ind}let (_level, depth) = super::enter();\n");
+        }
+        let typed = self.sh.body == 'T' || expected;
+        let acc = &self.names.local;
         // typed arguments enter the key through a digest (an i64 computed from the argument's contents)
-        let d = |k: usize| if typed { format!("({})", self.t_digest(k)) } else { format!("a{}", k + 1) };
+        let d = |k: usize| {
+            if expected {
+                format!("({})", eclass(&self.sh.exprs[k]).digest.replace("{a}", &self.names.args[k]))
+            } else if typed {
+                format!("({})", self.t_digest(k))
+            } else {
+                self.names.args[k].clone()
+            }
+        };
         let mut key = format!("{}.wrapping_mul(31)", d(0));
         if self.sh.nargs >= 2 {
             key += &format!(".wrapping_add({}.wrapping_mul(7))", d(1));
@@ -328,18 +773,18 @@ impl<'a> BodyGen<'a> {
         if self.sh.nargs >= 4 {
             key += &format!(".wrapping_add({} as i64)", d(3));
         }
-        s += &format!("{ind}let key: i64 = {key};\n{ind}let mut acc: i64 = key;\n");
+        s += &format!("{ind}let key: i64 = {key};\n{ind}let mut {acc}: i64 = key;\n");
         // index into a shared Vec capture: the first argument where it is an integer, else the key
-        let index = if typed { "key" } else { "a1" };
+        let index = if typed { "key" } else { self.names.args[0].as_str() };
         for p in 0..self.sh.caps.len() {
             if self.sh.caps[p] {
                 continue;
             }
             let n = self.sh.cap_name(p);
             if self.sh.cap_is_vec(p) {
-                s += &format!("{ind}acc = acc.wrapping_mul(3).wrapping_add({n}[{index}.rem_euclid({n}.len() as i64) as usize]);\n");
+                s += &format!("{ind}{acc} = {acc}.wrapping_mul(3).wrapping_add({n}[{index}.rem_euclid({n}.len() as i64) as usize]);\n");
             } else {
-                s += &format!("{ind}acc = acc.wrapping_mul(3).wrapping_add(*{n});\n");
+                s += &format!("{ind}{acc} = {acc}.wrapping_mul(3).wrapping_add(*{n});\n");
             }
         }
         s
@@ -557,6 +1002,70 @@ impl<'a> BodyGen<'a> {
                     s += &self.mutate("key ^ 2", &i1);
                 }
             }
+            'E' => {
+                let n = self.sh.nargs;
+                let cls: Vec<EClass> = (0..n).map(|k| eclass(&self.sh.exprs[k])).collect();
+                let plain = |j: usize| self.call_with(cls.iter().map(|c| c.sites[j].clone()).collect());
+                let looped = |j: usize| self.call_with(cls.iter().map(|c| c.loop_sites[j].replace("{k}", "k")).collect());
+                let shifts: Vec<String> = E_SHIFTS.iter().enumerate().map(|(i, k)| format!("{k}{}", if i == 0 { "u32" } else { "" })).collect();
+                s += &self.mutate("acc", &i1);
+                // three levels of activations: the driver's call, its calls, their calls
+                s += &format!("{i1}if depth >= 2 {{\n{i2}{}\n{i1}}}\n", self.ret("acc"));
+                if r {
+                    s += &format!("{i1}let x = {};\n", plain(0));
+                    s += &self.mutate("x", &i1);
+                    s += &format!("{i1}if depth == 0 {{\n{i2}for k in [{}] {{\n", shifts.join(", "));
+                    let i3 = format!("{i2}    ");
+                    s += &format!("{i3}acc = acc.wrapping_mul(3).wrapping_add({});\n", looped(0));
+                    s += &format!("{i3}acc = acc.wrapping_mul(5).wrapping_add({});\n", looped(1));
+                    s += &self.mutate("acc ^ k as i64", &i3);
+                    s += &format!("{i2}}}\n");
+                    s += &format!("{i2}let y = {};\n", plain(1));
+                    s += &self.mutate("x ^ y", &i2);
+                    s += &format!("{i2}let z = {};\n", plain(2));
+                    s += &format!("{i2}acc = acc.wrapping_add(y.wrapping_mul(3)).wrapping_add(z.wrapping_mul(7));\n");
+                    s += &format!("{i1}}}\n");
+                    s += &format!("{i1}x.wrapping_mul(3).wrapping_add(acc)\n");
+                } else {
+                    s += &format!("{i1}{};\n", plain(0));
+                    s += &self.mutate("key ^ 1", &i1);
+                    s += &format!("{i1}if depth == 0 {{\n{i2}for k in [{}] {{\n", shifts.join(", "));
+                    let i3 = format!("{i2}    ");
+                    s += &format!("{i3}{};\n{i3}{};\n", looped(0), looped(1));
+                    s += &self.mutate("key ^ k as i64", &i3);
+                    s += &format!("{i2}}}\n");
+                    s += &format!("{i2}{};\n", plain(1));
+                    s += &self.mutate("key ^ 2", &i2);
+                    s += &format!("{i2}{};\n", plain(2));
+                    s += &self.mutate("key ^ 3", &i2);
+                    s += &format!("{i1}}}\n");
+                }
+            }
+            'N' => {
+                let n = self.sh.nargs;
+                let (acc, v, a1) = (&self.names.local, &self.names.loopvar, &self.names.args[0]);
+                let in_loop = self.call_with(site_named(5, n, &self.names.args, v));
+                let after = self.call_with(site_named(1, n, &self.names.args, v));
+                s += &self.mutate(acc, &i1);
+                s += &format!("{i1}if {a1} <= 0 {{\n{i2}{}\n{i1}}}\n", self.ret(acc));
+                // names of the standard library in the value namespace: an imported fn, a prelude variant, a prelude fn
+                s += &format!("{i1}{acc} = max({acc}, key ^ 21);\n");
+                s += &format!("{i1}let spare = Some({acc} ^ 7);\n");
+                if r {
+                    s += &format!("{i1}for {v} in 0..2i64 {{\n{i2}{acc} = {acc}.wrapping_mul(3).wrapping_add({in_loop});\n");
+                    s += &self.mutate(acc, &i2);
+                    s += &format!("{i1}}}\n");
+                    s += &format!("{i1}let y = {after};\n{i1}drop(spare);\n");
+                    s += &self.mutate(&format!("{acc} ^ y"), &i1);
+                    s += &format!("{i1}{acc}.wrapping_add(y.wrapping_mul(5))\n");
+                } else {
+                    s += &format!("{i1}for {v} in 0..2i64 {{\n{i2}{in_loop};\n");
+                    s += &self.mutate(&format!("{acc} ^ {v}"), &i2);
+                    s += &format!("{i1}}}\n");
+                    s += &format!("{i1}{after};\n{i1}drop(spare);\n");
+                    s += &self.mutate("key ^ 2", &i1);
+                }
+            }
             other => panic!("unknown body template {other}"),
         }
         s
@@ -567,11 +1076,12 @@ impl<'a> BodyGen<'a> {
 pub fn macro_invocation(sh: &Shape, ind: &str) -> String {
     let caps: Vec<String> =
         (0..sh.caps.len()).map(|p| format!("{}: {}{}", sh.cap_name(p), if sh.caps[p] { "&mut " } else { "&" }, sh.cap_type(p))).collect();
-    let args: Vec<String> = (0..sh.nargs).map(|i| format!("a{}: {}", i + 1, sh.arg_type(i))).collect();
+    let names = sh.names();
+    let args: Vec<String> = (0..sh.nargs).map(|i| format!("{}: {}", names.args[i], sh.arg_type(i))).collect();
     let i1 = format!("{ind}    ");
-    let mut s = format!("rec_lambda!(f, |{}| {{\n", caps.join(", "));
+    let mut s = format!("rec_lambda!({}, |{}| {{\n", names.rec, caps.join(", "));
     s += &format!("{i1}|{}|{} {{\n", args.join(", "), if sh.ret { " -> i64" } else { "" });
-    s += &BodyGen { sh, hand: None }.body(&i1);
+    s += &BodyGen::new(sh, None).body(&i1);
     s += &format!("{i1}}}\n{ind}}})");
     s
 }
@@ -617,13 +1127,14 @@ pub fn has_mutating_argument(invocation: &str) -> bool {
 
 /// The equivalent hand-written recursive function: arguments, then the captures in written order.
 pub fn hand_fn(sh: &Shape, name: &str, ind: &str) -> String {
-    let mut params: Vec<String> = (0..sh.nargs).map(|i| format!("a{}: {}", i + 1, sh.arg_type(i))).collect();
+    let names = sh.names();
+    let mut params: Vec<String> = (0..sh.nargs).map(|i| format!("{}: {}", names.args[i], sh.arg_type(i))).collect();
     for p in 0..sh.caps.len() {
         params.push(format!("{}: {}{}", sh.cap_name(p), if sh.caps[p] { "&mut " } else { "&" }, sh.cap_type(p)));
     }
     let mut s = format!("{ind}fn {name}({}){} {{\n", params.join(", "), if sh.ret { " -> i64" } else { "" });
     // the body text is generated one level shallower than in the closure; indentation is cosmetic
-    s += &BodyGen { sh, hand: Some(name) }.body(ind);
+    s += &BodyGen::new(sh, Some(name)).body(ind);
     s += &format!("{ind}}}\n");
     s
 }
@@ -735,7 +1246,13 @@ fn typed_calls(sh: &Shape, call: &dyn Fn(&[String]) -> String, dind: &str, ind: 
 
 fn shape_module(id: usize, sh: &Shape, with_macro: bool) -> String {
     let n = sh.nargs;
-    let mut s = format!("// shape {id}: {}\nmod shape_{id} {{\n    use rlib_lambda::rec_lambda;\n\n", sh.descriptor());
+    let names = sh.names();
+    let lam_name = names.binding.as_str();
+    let mut s = format!("// shape {id}: {}\nmod shape_{id} {{\n    use rlib_lambda::rec_lambda;\n", sh.descriptor());
+    if sh.body == 'N' {
+        s += "    use std::cmp::max;\n";
+    }
+    s += "\n";
     s += &hand_fn(sh, "hand", "    ");
     let decl = |s: &mut String| {
         for p in 0..sh.caps.len() {
@@ -749,16 +1266,16 @@ fn shape_module(id: usize, sh: &Shape, with_macro: bool) -> String {
         }
     };
     let lam = if with_macro {
-        format!("            let mut lam = {};\n", macro_invocation(sh, "            "))
+        format!("            let mut {lam_name} = {};\n", macro_invocation(sh, "            "))
     } else {
         // control variant (used only to tell a generator defect from a macro defect): an ordinary closure
         // around the hand-written function, no macro involved
-        let ps: Vec<String> = (0..n).map(|i| format!("a{}: {}", i + 1, sh.arg_type(i))).collect();
-        let mut all: Vec<String> = (1..=n).map(|i| format!("a{i}")).collect();
+        let ps: Vec<String> = (0..n).map(|i| format!("{}: {}", names.args[i], sh.arg_type(i))).collect();
+        let mut all: Vec<String> = names.args.clone();
         for p in 0..sh.caps.len() {
             all.push(format!("{}{}", if sh.caps[p] { "&mut " } else { "&" }, sh.cap_name(p)));
         }
-        format!("            let mut lam = |{}| hand({});\n", ps.join(", "), all.join(", "))
+        format!("            let mut {lam_name} = |{}| hand({});\n", ps.join(", "), all.join(", "))
     };
     let caps_pass: Vec<String> = (0..sh.caps.len()).map(|p| format!("{}{}", if sh.caps[p] { "&mut " } else { "&" }, sh.cap_name(p))).collect();
     let with = |a: &[String]| {
@@ -766,7 +1283,7 @@ fn shape_module(id: usize, sh: &Shape, with_macro: bool) -> String {
         all.extend(caps_pass.iter().cloned());
         all.join(", ")
     };
-    let call_lam = |a: &[String]| format!("lam({})", a.join(", "));
+    let call_lam = |a: &[String]| format!("{lam_name}({})", a.join(", "));
     let call_hand = |a: &[String]| format!("hand({})", with(a));
 
     if sh.body == 'T' {
@@ -796,9 +1313,15 @@ fn shape_module(id: usize, sh: &Shape, with_macro: bool) -> String {
         }
         format!("        format!(\"{{:?}}\", ({}))\n", parts.join(", "))
     };
-    let first: Vec<String> = (1..=n).map(|i| format!("a{i}")).collect();
+    let mut first: Vec<String> = (1..=n).map(|i| format!("a{i}")).collect();
     let mut second = first.clone();
     second[0] = "a1 - 1".to_string();
+    if sh.body == 'E' {
+        // values of the parameter types, built from the first component of the driver tuple
+        let top = |k: usize, add: usize| eclass(&sh.exprs[k]).top.replace("{v}", &format!("(a1 + {})", k + add));
+        first = (0..n).map(|k| top(k, 0)).collect();
+        second = (0..n).map(|k| top(k, 7)).collect();
+    }
 
     // (a) the macro version: the closure is created once and called twice
     s += "\n    pub fn run_macro(a1: i64, a2: i64, a3: u32, a4: bool) -> String {\n";
@@ -837,6 +1360,12 @@ pub fn lib_source(shapes: &[(usize, Shape)], with_macro: bool) -> (String, Vec<(
     s += "pub fn early() {\n    EARLY.fetch_add(1, Ordering::Relaxed);\n}\n";
     s += "/// (body executions, activations left through an explicit `return`) so far\n";
     s += "pub fn counters() -> (u64, u64) {\n    (CALLS.load(Ordering::Relaxed), EARLY.load(Ordering::Relaxed))\n}\n";
+    s += "static LEVEL: AtomicU64 = AtomicU64::new(0);\n";
+    s += "/// One per activation of a body of template E; gives the level back when it is dropped (return, unwinding).\n";
+    s += "pub struct Level;\n";
+    s += "impl Drop for Level {\n    fn drop(&mut self) {\n        LEVEL.fetch_sub(1, Ordering::Relaxed);\n    }\n}\n";
+    s += "/// (guard, number of activations of the same kind below this one)\n";
+    s += "pub fn enter() -> (Level, u64) {\n    (Level, LEVEL.fetch_add(1, Ordering::Relaxed))\n}\n";
     s += "pub type Runner = fn(i64, i64, u32, bool) -> String;\n\n";
     let mut line = s.matches('\n').count();
     for (id, sh) in shapes {
@@ -848,7 +1377,7 @@ pub fn lib_source(shapes: &[(usize, Shape)], with_macro: bool) -> (String, Vec<(
     }
     s += "pub static SHAPES: &[(u64, usize, Runner, Runner)] = &[\n";
     for (id, sh) in shapes {
-        s += &format!("    ({id}, {}, shape_{id}::run_macro, shape_{id}::run_hand),\n", sh.nargs);
+        s += &format!("    ({id}, {}, shape_{id}::run_macro, shape_{id}::run_hand),\n", sh.grid_arity());
     }
     s += "];\n";
     (s, lines)
@@ -867,7 +1396,7 @@ pub fn lib_file(shapes: &[(usize, Shape)], with_macro: bool) -> (String, Vec<(us
 pub fn main_source(parts: &[String], thorough: bool) -> String {
     let mut s = String::new();
     s += "type Tuple = (i64, i64, u32, bool);\ntype Runner = fn(i64, i64, u32, bool) -> String;\ntype Counters = fn() -> (u64, u64);\n\n";
-    for nargs in 1..=4 {
+    for nargs in 0..=4 {
         let g = grid(thorough, nargs);
         s += &format!("static GRID_{nargs}: &[Tuple] = &[\n");
         for t in &g {
@@ -907,6 +1436,7 @@ fn main() {
             continue;
         }
         let grid = match nargs {
+            0 => GRID_0,
             1 => GRID_1,
             2 => GRID_2,
             3 => GRID_3,
